@@ -107,12 +107,12 @@ theorem wrap_separation (θ0 : ℝ) (j j' : Fin N) :
 /-- the kernel of the band-integrated saturation -/
 noncomputable def satKernel (bp : BrkP ℝ) (d : Fin N) : ℝ :=
   let ma := wrapPi rfloor (deg2rad (theta 0 d))
-  if deg2rad bp.widthDeg < Solv.absv ma then 0 else npow (Real.cos ma) bp.cosPow * dθ N
+  if deg2rad bp.widthDeg + 1 / ((1000000000 : ℕ) : ℝ) < Solv.absv ma then 0 else npow (Real.cos ma) bp.cosPow * dθ N
 
 /-- band-integrated saturation of one frequency row on the uniform grid, written as in the code -/
 noncomputable def bandRow (bp : BrkP ℝ) (θ0 : ℝ) (sat : Fin N → ℝ) : Fin N → ℝ :=
   fun j => ∑ j', (let ma := wrapPi rfloor (deg2rad (theta θ0 j') - deg2rad (theta θ0 j))
-                   if deg2rad bp.widthDeg < Solv.absv ma then 0 else sat j' * npow (Real.cos ma) bp.cosPow * dθ N)
+                   if deg2rad bp.widthDeg + 1 / ((1000000000 : ℕ) : ℝ) < Solv.absv ma then 0 else sat j' * npow (Real.cos ma) bp.cosPow * dθ N)
 
 theorem bandRow_eq_conv (bp : BrkP ℝ) (θ0 : ℝ) (sat : Fin N → ℝ) :
     bandRow bp θ0 sat = conv (satKernel bp) sat := by
@@ -127,6 +127,30 @@ theorem bandRow_eq_conv (bp : BrkP ℝ) (θ0 : ℝ) (sat : Fin N → ℝ) :
 theorem bandRow_rot (bp : BrkP ℝ) (θ0 : ℝ) (k : Fin N) (sat : Fin N → ℝ) :
     bandRow bp θ0 (rotE k sat) = rotE k (bandRow bp θ0 sat) := by
   rw [bandRow_eq_conv, bandRow_eq_conv, conv_rot]
+
+theorem st_lsum_ofFn : ∀ {n : ℕ} (a : Fin n → ℝ), Osu.ST.lsum (List.ofFn a) = ∑ j, a j
+  | 0, _ => by simp [Osu.ST.lsum]
+  | n + 1, a => by
+    rw [List.ofFn_succ, Fin.sum_univ_succ]
+    simp only [Osu.ST.lsum]
+    rw [st_lsum_ofFn (fun i => a i.succ)]
+
+/-- the model's band-integrated saturation of one frequency row on the uniform grid is `bandRow` -/
+theorem band_row_bridge {N : ℕ} [NeZero N] (bp : BrkP ℝ) (θ0 cg k : ℝ) (E : Fin N → ℝ) (om df : List ℝ) :
+    bandSaturationRow rfloor bp
+      { omega := om, theta := List.ofFn fun j : Fin N => deg2rad (theta θ0 j), df := df, dth := List.ofFn fun _ : Fin N => dθ N }
+      (List.ofFn E) cg k
+      = List.ofFn (bandRow bp θ0 (fun j => E j * cg * (k * k * k) / Solv.two / Transc.pi)) := by
+  simp only [bandSaturationRow, List.map_ofFn, List.zip]
+  congr 1
+  funext j
+  simp only [Function.comp]
+  rw [zipWith_ofFn, zipWith_ofFn, st_lsum_ofFn]
+  simp only [bandRow]
+  apply Finset.sum_congr rfl
+  intro j' _
+  split <;> rfl
+
 
 /-! ### sums over direction are invariant: bulk rates, ST6 -/
 
